@@ -380,8 +380,8 @@ Proof. intros H. unfold apply_indexed.
 Qed.
 
 Lemma locate_inv g s tg orc : InvS g s -> InvS g (snd (fst (locate s tg orc))).
-Proof. intros H. unfold locate. destruct (find_sub tg (map_text (s_raw s)) 0); [exact H|].
-  destruct orc as [|a r]; (match goal with |- context[find_sub tg ?a 0] => destruct (find_sub tg a 0) end; [exact H|]).
+Proof. intros H. unfold locate. destruct (find_on (s_raw s) tg); [exact H|].
+  destruct orc as [|a r]; (match goal with |- context[find_on ?a tg] => destruct (find_on a tg) end; [exact H|]).
   - match goal with |- context[find_match ?a ?b ?c] => destruct (find_match a b c) end. exact H.
   - destruct a; [exact H|]. match goal with |- context[find_match ?a ?b ?c] => destruct (find_match a b c) end. exact H. Qed.
 Lemma apply_located_inv g s uc st ml nw cm : InvS g s ->
@@ -475,8 +475,8 @@ Proof. unfold apply_edits.
   destruct (fold_left step_idx (sort_idx_desc indexed) (s0, 0, 0, 0, [], 0)) as [[[[[s1 ap1] sk1] out1] occ1] nn1].
   destruct heur as [|h heur'] eqn:Eh.
   - intros E. cbn [i_cnt] in HI. rewrite (HI E). simpl in Hlen. lia.
-  - pose proof (plan_length (sort_len_desc (h :: heur')) (map_text (s_raw (rebuild s1))) orc) as Lp.
-    destruct (plan (map_text (s_raw (rebuild s1))) (sort_len_desc (h :: heur')) orc) as [planned orc1]. cbn [fst] in Lp.
+  - pose proof (plan_length (sort_len_desc (h :: heur')) (s_raw (rebuild s1)) orc) as Lp.
+    destruct (plan (s_raw (rebuild s1)) (sort_len_desc (h :: heur')) orc) as [planned orc1]. cbn [fst] in Lp.
     unfold sort_len_desc in Lp. rewrite sort_by_length in Lp.
     pose proof (fold_heur_cnt planned (length indexed) (rebuild s1, ap1, sk1, out1, orc1, occ1, nn1) HI) as HH.
     rewrite Lp in HH.
@@ -504,7 +504,7 @@ Proof. cbn zeta. intros Hwf. unfold apply_edits.
   { intros nn s2 (A & _ & _ & _ & W). split; [|exact W]. intros E. apply A. subst nn. reflexivity. }
   destruct heur as [|h heur'].
   - now apply Fin.
-  - destruct (plan (map_text (s_raw (rebuild s1))) (sort_len_desc (h :: heur')) orc) as [planned orc1].
+  - destruct (plan (s_raw (rebuild s1)) (sort_len_desc (h :: heur')) orc) as [planned orc1].
     pose proof (fold_heur_inv cur0 c0 n0 nd planned (rebuild s1, ap1, sk1, out1, orc1, occ1, nn1) HI) as HH.
     destruct (fold_left step_heur planned _) as [[[[[[s2 ap2] sk2] out2] orc2] occ2] nn2]. now apply Fin. Qed.
 Theorem engine_contract d author ts edits orc :
@@ -840,8 +840,8 @@ Proof. unfold apply_located.
   match goal with |- context[match ?a with [] => _ | _ :: _ => _ end] => destruct a end;
   match goal with |- context[match ?a with [] => _ | _ :: _ => _ end] => destruct a end; first [apply apply_indexed_not_applied | leafA]. Qed.
 Lemma locate_doc s tg orc : sdoc (snd (fst (locate s tg orc))) = sdoc s.
-Proof. unfold locate, sdoc. destruct (find_sub tg (map_text (s_raw s)) 0); [reflexivity|].
-  destruct orc as [|a r]; (match goal with |- context[find_sub tg ?a 0] => destruct (find_sub tg a 0) end; [reflexivity|]).
+Proof. unfold locate, sdoc. destruct (find_on (s_raw s) tg); [reflexivity|].
+  destruct orc as [|a r]; (match goal with |- context[find_on ?a tg] => destruct (find_on a tg) end; [reflexivity|]).
   - match goal with |- context[find_match ?a ?b ?c] => destruct (find_match a b c) end. reflexivity.
   - destruct a; [reflexivity|]. match goal with |- context[find_match ?a ?b ?c] => destruct (find_match a b c) end. reflexivity. Qed.
 Lemma apply_heuristic_not_applied s tg nw cm orc :
@@ -885,7 +885,7 @@ Proof. unfold apply_edits. set (nd := normalize_doc d).
   pose proof (fold_idx_nt nd (sort_idx_desc indexed) _ H0) as HI.
   destruct (fold_left step_idx (sort_idx_desc indexed) (s0, 0, 0, 0, [], 0)) as [[[[[s1 ap1] sk1] out1] occ1] nn1]. cbn [i_nt] in HI.
   destruct heur as [|h heur']; [exact HI|].
-  destruct (plan (map_text (s_raw (rebuild s1))) (sort_len_desc (h :: heur')) orc) as [planned orc1].
+  destruct (plan (s_raw (rebuild s1)) (sort_len_desc (h :: heur')) orc) as [planned orc1].
   pose proof (fold_heur_nt nd planned (rebuild s1, ap1, sk1, out1, orc1, occ1, nn1) HI) as HH.
   destruct (fold_left step_heur planned _) as [[[[[[s2 ap2] sk2] out2] orc2] occ2] nn2]. exact HH. Qed.
 Print Assumptions engine_no_trace.
